@@ -698,12 +698,22 @@ def r6_issue_recording(ctx, sym, at):
     for by_name in (False, True):
         for sname, seq in sequences.items():
             analysis = Obj('analysis', issues={})
-            me = symexec.self_obj(at.core, 'TifaCore', analysis=analysis, report=Obj('report'))
+            me = symexec.self_obj(at.core, 'TifaCore')
+            init_fn = at.core_methods.get('__init__')
+            if init_fn is not None:
+                _, raised0 = symexec.run(symexec.new_fd(sym, at.core), init_fn, [Obj('report')], bound_self=me,
+                                         what='TifaCore.__init__')
+                if raised0 is not None:
+                    raise AnalysisError("TifaCore.__init__ raises %s" % raised0.kind)
+            me.attrs.update(analysis=analysis)
+            me.attrs.setdefault('report', Obj('report'))
             made = []
 
             def mk(label, name, line):
+                # (two reads on one line sit in different columns)
                 f = Obj('feedback:%s' % label, label=label, fields=({'name': name} if name is not None else {}),
-                        location=Obj('location', line=line))
+                        location=Obj('location', line=line, col=4 * len(made), end_line=line, end_col=4 * len(made) + 1,
+                                     filename=None))
                 made.append(f)
                 return f
             fd = symexec.new_fd(sym, at.core, calls={
@@ -725,6 +735,28 @@ def r6_issue_recording(ctx, sym, at):
                           seq, {k: len(v) for k, v in got.items()} if isinstance(got, dict) else got,
                           '' if raised is None else ' (raises %s)' % raised.kind),
                       "c = 0\nif c:\n    print(a)\nprint(a)   # the second read is the one that fails at run time")
+            # the same TIFA object analyses a second program (process_code: a new analysis record, reset()) whose
+            # issues sit at the same places: they are the second program's issues, all of them
+            if raised is None and not by_name:
+                second = Obj('analysis', issues={})
+                me.attrs['analysis'] = second
+                reset_fn = at.core_methods.get('reset')
+                if reset_fn is not None:
+                    symexec.run(fd, reset_fn, [], bound_self=me, what='TifaCore.reset')
+                first_made = list(made)
+                del made[:]
+                raised2 = None
+                for label, name, line in seq:
+                    _, raised2 = symexec.run(fd, fn, [mk(label, name, line)], bound_self=me, what='TifaCore._issue')
+                    if raised2 is not None:
+                        break
+                got2 = second.attrs['issues']
+                n2 = sum(len(v) for v in got2.values()) if isinstance(got2, dict) else -1
+                ctx.check(raised2 is None and n2 == len(seq), 'R6', '_issue:second-analysis[%s]' % sname, at.core, fn,
+                          "a second analysis by the same TIFA object, reporting %r again, records %d of %d issue(s)%s" % (
+                              seq, n2, len(seq), '' if raised2 is None else ' (raises %s)' % raised2.kind),
+                          "tifa_analysis() on one report for 'a = 1; b = \"x\"; c = a + b' and then for another "
+                          "program with the offending operator at the same place: the second result has no issues")
 
 
 def run(ctx):
@@ -735,6 +767,10 @@ def run(ctx):
     r2_issue_dispatch(ctx, sym, at)
     r3_path_discipline(ctx, sym, at)
     r4_merge_both_sides(ctx, sym, at)
+    # R7/R8: "reported at that line" inside a section: the text TIFA is handed is the section's text with nothing lost,
+    # and the offset added is the number of lines before it (shared with C17.R1 / C17.R3)
+    from .c12 import section_offsets
+    section_offsets(ctx, sym, as_rule='R8', partition_as='R7')
     ctx.assume("the mini-language stands for assignments/reads of plain names; conditions, expressions and prints do "
                "not affect the flow facts; loop bodies are modelled as running 0, 1 or 2 times; exactness for every "
                "nesting beyond the size bound and line numbers are not decided")
